@@ -354,8 +354,9 @@ def computeHomogenizationFunction(therm : GeneralThermodynamics, x, T, homogeniz
     chemical_potentials = np.zeros((x.shape[0], len(therm.elements)-1))
     for i in range(len(x)):
         mobility_data = _computeSingleMobility(therm, x[i], T[i], unsortIndices, hashTable)
-        mob = mobility_data.mobility
-        phase_fracs = mobility_data.phase_fractions
+        #Copies, since the post process functions modify their arguments and mobility_data can be a cached object
+        mob = np.array(mobility_data.mobility)
+        phase_fracs = np.array(mobility_data.phase_fractions)
         chemical_potentials[i,:] = mobility_data.chemical_potentials
 
         mob, phase_fracs = homogenizationParameters.postProcessFunction(therm, mob, phase_fracs, *homogenizationParameters.postProcessParameters, phases=mobility_data.phases)
